@@ -161,6 +161,15 @@ func genSst(g *gen, n int, tier string, w *bufio.Writer) {
 		}
 		fmt.Fprintf(w, "tbuild bloom=%d %d %s\n", bloom, cnt, fmtSstEntries(es))
 		fmt.Fprintln(w, "tall")
+		if c%9 == 5 && cnt <= 30 { // single-byte alterations of a small table file
+			for a := 0; a < 40; a++ {
+				fmt.Fprintf(w, "talter %d %d\n", g.intn(12000), g.pick(1, 0x80, 0xff, 0x10))
+				fmt.Fprintln(w, "tall")
+				fmt.Fprintln(w, "tget "+hx(g.seekTarget(es)))
+				fmt.Fprintln(w, "tseek "+hx(g.seekTarget(es)))
+			}
+			continue
+		}
 		for s := 0; s < 8+g.intn(25); s++ {
 			switch g.intn(12) {
 			case 0:
@@ -187,6 +196,7 @@ type sstRun struct {
 	bit   *block.Iterator
 	dir   string
 	file  []byte
+	orig  []byte // the unaltered table as written
 	n     int
 	rd    *sstable.Reader
 	it    *sstable.Iterator
@@ -307,7 +317,7 @@ func (x *sstRun) step(ws []string) (out string) {
 			x.rd.Close()
 			x.rd, x.it = nil, nil
 		}
-		x.file = nil
+		x.file, x.orig = nil, nil
 		es := parseSstEntries(ws[3:])
 		x.n++
 		p := filepath.Join(x.dir, fmt.Sprintf("w%d.sst", x.n))
@@ -337,14 +347,16 @@ func (x *sstRun) step(ws []string) (out string) {
 			return "err-footer-checksum"
 		}
 		st := x.openFile(data)
+		x.orig = data
 		return fmt.Sprintf("%s %d %d", st, n, crc32.ChecksumIEEE(canonicalTable(data)))
 	case "talter":
 		off, _ := strconv.Atoi(ws[1])
 		xv, _ := strconv.Atoi(ws[2])
-		data := append([]byte{}, x.file...)
-		if off < len(data) {
-			data[off] ^= byte(xv)
+		if len(x.orig) == 0 {
+			return "closed"
 		}
+		data := append([]byte{}, x.orig...)
+		data[off%len(data)] ^= byte(xv)
 		return x.openFile(data)
 	case "tnew", "tfirst", "tlast", "tnext", "tseek", "tall":
 		if x.rd == nil {
